@@ -727,3 +727,33 @@ Proof.
   exists st1. split; [exact Hrun|]. cbn [run_ready] in Hr2. destruct Hr2 as [Hop _].
   pose proof (step_power c s1 o Hsync HI1 Hop st1 Hsy1 Hrep1) as Hst. rewrite E2 in Hst. destruct (Hst Hwf2) as [_ Himg]. exact Himg.
 Qed.
+
+(* ---------- durable lengths never exceed the file: cutting one file down to its durable length (or
+   anywhere above) and keeping the others whole is a power image ---------- *)
+Definition bounded (st : pst) : Prop := forall f b, fst st f = Some b -> (snd st f <= length b)%nat.
+
+Lemma pstep_bounded st c st' : bounded st -> pstep st c = Some st' -> bounded st'.
+Proof.
+  destruct st as [s syn]. intros Hb H. unfold pstep in H. destruct c as [g|g x|g|g]; destruct (s g) as [y|] eqn:Eg; try discriminate; inversion H; subst; clear H.
+  - intros f b Hf. cbn [fst snd] in *. unfold fupd, nupd in *. destruct (fn_eqb f g); [inversion Hf; cbn; lia|apply Hb; exact Hf].
+  - intros f b Hf. cbn [fst snd] in *. unfold fupd in Hf. destruct (fn_eqb f g) eqn:E.
+    + apply fn_eqb_eq in E. subst f. inversion Hf; subst. specialize (Hb g y Eg). cbn [fst snd] in Hb. rewrite app_length. lia.
+    + apply Hb. exact Hf.
+  - intros f b Hf. cbn [fst snd] in *. unfold nupd. destruct (fn_eqb f g) eqn:E; [apply fn_eqb_eq in E; subst; rewrite Eg in Hf; inversion Hf; lia|apply Hb; exact Hf].
+  - intros f b Hf. cbn [fst snd] in *. unfold fupd in Hf. destruct (fn_eqb f g); [discriminate|apply Hb; exact Hf].
+Qed.
+
+Lemma prun_bounded : forall t st st', bounded st -> prun st t = Some st' -> bounded st'.
+Proof.
+  induction t as [|c t IH]; intros st st' Hb H; cbn [prun] in H; [inversion H; subst; exact Hb|].
+  destruct (pstep st c) as [st1|] eqn:E; [|discriminate]. eapply IH; [eapply pstep_bounded; eassumption|exact H].
+Qed.
+
+Lemma cut_one_is_image st g j : bounded st -> (snd st g <= j)%nat ->
+  pimage st (fun f => match fst st f with Some b => Some (if fn_eqb f g then firstn j b else b) | None => None end).
+Proof.
+  intros Hb Hj f. destruct (fst st f) as [b|] eqn:Ef; [|reflexivity]. destruct (fn_eqb f g) eqn:E.
+  - apply fn_eqb_eq in E. subst f. exists (Nat.min j (length b)). pose proof (Hb g b Ef). split; [lia|]. f_equal.
+    destruct (Nat.le_ge_cases j (length b)); [rewrite Nat.min_l by assumption; reflexivity|rewrite Nat.min_r, firstn_all, firstn_all2 by assumption; reflexivity].
+  - exists (length b). split; [split; [apply Hb; exact Ef|lia]|rewrite firstn_all; reflexivity].
+Qed.
